@@ -22,9 +22,9 @@ type SolveOpts struct {
 }
 
 type solverDef struct {
-	name string
-	args func(file string, to time.Duration) []string
-	cvc5 bool
+	name   string
+	args   func(file string, to time.Duration) []string
+	cvc5   bool
 	pruned bool // run on the query without quantified hypotheses unrelated to the goal
 }
 
